@@ -280,14 +280,28 @@ def core_request(wire, bodies, ign, entry_index, cases, fuel):
             f'(rules {" ".join(bodies)}) (entry (ref {entry_index})) (cases {cs}))')
 
 
+# time-outs seen by this worker process: 'confirmed' = repeated with six times the limit
+_TIMEOUTS = {'confirmed': 0, 'total': 0}
+# An implementation that hangs on many cases must not make a check run for hours: once a worker process has seen this many
+# time-outs (three of them confirmed with six times the limit), every further call is answered 'Timeout' without running.
+# On a tree where the property holds no call times out, so the cap never comes into play there.
+TIMEOUT_CAP = 10
+
+
 def run_real(parse, text, pos=0, spans=False, limit=5.0, _retry=True):
     """outcome of the implementation in the model's vocabulary:
     ('S', value, end) | ('F', index) | ('X', ExceptionClass).
     A time-out is only believed when it repeats with six times the limit (a loaded machine must not raise an alarm)."""
     if _retry:
+        if _TIMEOUTS['total'] >= TIMEOUT_CAP:
+            return ('X', 'Timeout')      # see TIMEOUT_CAP
         r = run_real(parse, text, pos, spans, limit, _retry=False)
-        if r == ('X', 'Timeout'):
+        if r == ('X', 'Timeout') and _TIMEOUTS['confirmed'] < 3:
             r = run_real(parse, text, pos, spans, limit * 6, _retry=False)
+            if r == ('X', 'Timeout'):
+                _TIMEOUTS['confirmed'] += 1      # this process has seen code that really hangs: later time-outs are believed at once
+        if r == ('X', 'Timeout'):
+            _TIMEOUTS['total'] += 1
         return r
     mod = sys.modules.get(parse.__module__) if hasattr(parse, '__module__') else None
     try:
@@ -445,9 +459,15 @@ def run_real_api(parse, text, pos, full, limit=5.0, _retry=True):
     """('V', val) | ('P', val, idx) | ('E', idx) | ('X', name); also returns the raw value/exception.
     A time-out is only believed when it repeats with six times the limit."""
     if _retry:
+        if _TIMEOUTS['total'] >= TIMEOUT_CAP:
+            return ('X', 'Timeout'), None      # see TIMEOUT_CAP
         r = run_real_api(parse, text, pos, full, limit, _retry=False)
-        if r[0] == ('X', 'Timeout'):
+        if r[0] == ('X', 'Timeout') and _TIMEOUTS['confirmed'] < 3:
             r = run_real_api(parse, text, pos, full, limit * 6, _retry=False)
+            if r[0] == ('X', 'Timeout'):
+                _TIMEOUTS['confirmed'] += 1
+        if r[0] == ('X', 'Timeout'):
+            _TIMEOUTS['total'] += 1
         return r
     try:
         with time_limit(limit):
